@@ -53,6 +53,9 @@ def run(ctx):
             if "error" in res:
                 ctx.fail("generation-raises", "code generation failed in a sub-process: " + res["error"][-300:], case)
                 continue
+            if res.get("regen_same") is False:
+                ctx.fail("nondeterministic:regeneration-in-process", "generating the same definition twice in one process (with another "
+                         "generation in between) gives different header/source bytes", case)
             if ref is None:
                 ref = res
                 idx = drv.add({"op": "skeleton", "def": {"dt": "dt", "state": res["names"]["state"][::-1], "control": res["names"]["control"],
